@@ -292,6 +292,16 @@ fn mutants(g: &mut Rng, base: &RawRequest, query_mode: bool) -> Vec<(String, Raw
     let mut r = base.clone();
     r.uri = format!("{path}x{}", q.map(|q| format!("?{q}")).unwrap_or_default());
     out.push(("path/appended".into(), r));
+    // an x-amz-date header added after signing (it would be one of the signed x-amz-* headers), or taken away
+    if base.get_header("x-amz-date").is_none() {
+        let mut r = base.clone();
+        r.headers.push(("x-amz-date".into(), crate::monitor::c06_http_date(now_unix()).into_bytes()));
+        out.push(("amz-date-header/added".into(), r));
+    } else {
+        let mut r = base.clone();
+        r.headers.retain(|(k, _)| !k.eq_ignore_ascii_case("x-amz-date"));
+        out.push(("amz-date-header/removed".into(), r));
+    }
     // sub-resources: add, duplicate, drop, change
     let parts: Vec<String> = q.map(|q| q.split('&').map(str::to_owned).collect()).unwrap_or_default();
     let is_sub = |p: &str| V2_SUBRESOURCES.contains(&p.split('=').next().unwrap_or(""));
@@ -479,7 +489,10 @@ pub fn run(ctx: &RunCtx) -> i32 {
             let mut req = gen_unsigned(&mut g, vhost);
             let mode = if query_mode { "query" } else { "header" };
             if query_mode {
-                req.headers.retain(|(k, _)| !k.eq_ignore_ascii_case("date") && !k.eq_ignore_ascii_case("x-amz-date"));
+                // (one presigned request in three keeps an x-amz-date header: it is one of the x-amz-* headers of the
+                // string to sign, the date line is the Expires value all the same)
+                let keep_amz_date = g.chance(1, 3);
+                req.headers.retain(|(k, _)| !k.eq_ignore_ascii_case("date") && (keep_amz_date || !k.eq_ignore_ascii_case("x-amz-date")));
                 let exp = match g.below(4) {
                     0 => now_unix() - MARGIN - g.range(1, 100_000),
                     1 => now_unix() + MARGIN + 1,
